@@ -551,6 +551,9 @@ package helper
 // a nil result means the records reached the underlying writer: the writer's error is asked for after the last Flush,
 // with nothing pending (asked earlier - e.g. with the Flush deferred - a failed write of the buffered records is lost)
 //@ guarantees[C11,C10,C12] "error-is-asked-after-the-final-flush" result == nil ==> csverrfinal(csvWriter)
+// ... in encoding/csv's default dialect, the one the reader expects (with UseCRLF a lone carriage return inside a quoted
+// field is dropped; another separator would not be split on)
+//@ guarantees[C11,C10] "written-in-the-reader's-dialect" csvWriter.Comma == 44 && !csvWriter.UseCRLF
 //@ loop#0 invariant len(record) == len(c.columns)
 //@ loop#1 invariant len(record) == len(c.columns)
 
